@@ -43,6 +43,11 @@ type Line struct {
 	NotStr bool          `json:"not_string,omitempty"` // the field is a number
 	Pause  time.Duration `json:"pause,omitempty"`
 	Lvl    string        `json:"lvl,omitempty"` // field the action's match condition looks at
+	// Tick: instead of a fixed pause the line is sent when the clock reaches the first 200 ms mark (the period of the
+	// streamer's heart-beat, counted from the pipeline's start) that lies more than one time-out ahead, plus TickOff:
+	// the put then races with the heart-beat that delivers the stream's time-out
+	Tick    bool          `json:"tick,omitempty"`
+	TickOff time.Duration `json:"tick_off,omitempty"`
 }
 
 type Cfg struct {
@@ -151,7 +156,10 @@ func (h *H) Gen(rng *rand.Rand, tier, prop string) core.Cfg {
 			}
 		}
 		switch {
-		case core.Chance(rng, 0.65):
+		case core.Chance(rng, 0.6):
+		case core.Chance(rng, 0.15):
+			l.Tick = true
+			l.TickOff = time.Duration(rng.Int64N(int64(600*time.Microsecond))) - 300*time.Microsecond
 		case core.Chance(rng, 0.6):
 			l.Pause = core.DurBetween(rng, time.Millisecond, c.EventTimeout/2)
 		default:
@@ -373,6 +381,7 @@ func (h *H) Run(cc core.Cfg, sim *simrt.Sim) *core.Outcome {
 		}
 		p.AddAction(info)
 		p.SetOutput(&pipeline.OutputPluginInfo{PluginStaticInfo: &pipeline.PluginStaticInfo{Type: "out"}, PluginRuntimeInfo: &pipeline.PluginRuntimeInfo{Plugin: out}})
+		t0 := simrt.SimNow()
 		p.Start()
 		var wg simrt.WaitGroup
 		for rd, lines := range cfg.Readers {
@@ -383,6 +392,13 @@ func (h *H) Run(cc core.Cfg, sim *simrt.Sim) *core.Outcome {
 				for _, l := range lines {
 					if l.Pause > 0 {
 						simrt.Sleep(l.Pause)
+					}
+					if l.Tick {
+						const beat = 200 * time.Millisecond
+						at := ((simrt.SimNow()-t0+cfg.EventTimeout)/beat+1)*beat + t0 + l.TickOff
+						if d := at - simrt.SimNow(); d > 0 {
+							simrt.Sleep(d)
+						}
 					}
 					ob := &obs{line: l, callT: simrt.SimNow()}
 					all = append(all, ob)
